@@ -3,6 +3,7 @@
 From QV Require Import Lib.Tac Model.AsyncConn Proofs.AsyncConnInv Proofs.AsyncConnLemmas Proofs.AsyncConnProofs
   Proofs.AsyncConnHandles Proofs.AsyncConnFacts.
 From Coq Require Import Arith.
+Open Scope nat_scope.   (* AsyncConnFacts opens Z_scope *)
 
 (** * AppPoll *)
 Definition op_free (s : st) (o : op) (n : nat) : Prop :=
